@@ -677,6 +677,9 @@ class ADEV(Pytree):
                 if not eqn.primitive.multiple_results:
                     primal_outs = [primal_outs]
                     tangent_outs = [tangent_outs]
+                else:
+                    # JVP rules may return a tuple for one and a list for the other
+                    primal_outs, tangent_outs = list(primal_outs), list(tangent_outs)
 
                 jax_util.safe_map(
                     dual_env.write,
